@@ -74,7 +74,7 @@ RET = {"Z": "Z", "ZZ": "(Z * Z)", "bool": "bool", "unit": "unit", "listZ": "list
 RET_DEFAULT = {"Z": "0", "ZZ": "(0, 0)", "bool": "false", "unit": "tt", "listZ": "[]"}
 
 
-def find_function(tree, qualname):
+def find_function(tree, qualname, allow_async=False):
     parts = qualname.split(".")
     body = tree.body
     node = None
@@ -90,7 +90,7 @@ def find_function(tree, qualname):
             cls = found
         node = found
         body = found.body
-    if not isinstance(node, ast.FunctionDef):
+    if not isinstance(node, (ast.FunctionDef, ast.AsyncFunctionDef) if allow_async else ast.FunctionDef):
         raise Unsupported(f"{qualname} is not a plain function")
     return node, cls
 
@@ -680,6 +680,7 @@ def translate_unit(unit: Unit, repo: str):
     path = os.path.join(repo, unit.file)
     with open(path) as f:
         src = f.read()
+    unit._repo = repo
     tr = (getattr(unit, "tr_class", None) or Tr)(unit, src)
     # a parameter that is assigned is a local initialised from the parameter; reading it
     # must go through the state — handled because `locals` is checked before params.
